@@ -19,7 +19,10 @@ of blanks none of which falls on a wrap point), AND every REFERENCE
 line wrapped without loss (any length; only a break AT its own two blanks is excluded), AND
 `GbLayout.wf (toRec x)` (the record, as C01's abstract record type expresses it, lies in C01's domain:
 a date with a real month, no quotation mark in a qualifier key, a location text that is one INSDC-shaped
-expression, fewer than 10^8 bases).  The complete list with reasons: `PARTIAL` in gen/c03.py.  On the
+expression, fewer than 10^8 bases), AND every structurally assembled location inside the part on which
+read-after-write of the STRUCTURE is a theorem (`wfFeatureLoc` / `locProved`: every span forward on a
+sequence, `0 ≤ Start < End`, and no one-operand node with the `Join` flag — that is C02's `Rep ∧ InRange ∧
+Arity` — or the location is ONE span, then with any integers).  The complete list with reasons: `PARTIAL` in gen/c03.py.  On the
 remaining records the clause rests on the correspondence check (the REAL `Parse(Build(x)) ≈ x` is judged on
 every case, and the parser MODEL is compared with the real parser on every written text). -/
 
@@ -28,9 +31,11 @@ open PolyVerif.Spec.GbRoundTrip in
 parser model accepts the text `Build` writes and returns the record the writer was given: same
 sequence, locus, metadata, references (each with its own number when it has one, else numbered by its
 position), extra blocks, and per feature the
-same key, the same location text (cached, else `BuildLocationString` of the structure), for a feature
-written from its cached text also the same location STRUCTURE (`parseLocation` of the text read back,
-modulo `normLoc`), and the same qualifier map.  Metadata of any length (wrapped by `WrapString`
+same key, the same location text (cached, else `BuildLocationString` of the structure), the same
+location STRUCTURE (`parseLocation` — C02's model of what `Parse` does with the location text — applied
+to the text read back returns `SequenceLocation` modulo `normLoc`: for a cached text by the hypothesis
+`cacheConsistent`, for a structurally assembled feature by `location_structure_read_back` below), and the
+same qualifier map.  Metadata of any length (wrapped by `WrapString`
 wherever it breaks), any number of features / qualifiers / references / blocks, any sequence length
 < 10^8.  The result is stated EXACTLY: it is `toSequence (toRec x)`, the record that property C01's
 abstract record type states for `x` — in particular an UNSET `Reference.Index` comes back as the
@@ -40,6 +45,30 @@ theorem parse_build_partial (x : Sequence) (o : MapOrders) (h : covered x = true
     Genbank.parse (build x o) = .ok (PolyVerif.GbLayout.toSequence (toRec x))
       ∧ approx x (PolyVerif.GbLayout.toSequence (toRec x)) = true :=
   ⟨PolyVerif.Lemmas.GbRoundTripG.parse_build_covered x o h, PolyVerif.Lemmas.GbRoundTripG.approx_covered x h⟩
+
+/-- **"equal locations" for a structurally assembled feature**: `parseLocation` applied to the text
+`BuildLocationString` writes for `p` succeeds and returns `p` modulo `normLoc` (partial flags of inner
+nodes and the `Join` flag of a node with several operands are derived).  Domain `locProved` (decidable):
+`wfLoc p` and either C02's domain (every span `0 ≤ Start < End`, no one-operand `Join` node; any nesting
+of joins, merged complements, complement wrappers, any partial markers) or one span with ANY integers
+(`-4..3`, `1..0`, `{0,0}`).  Over C02's `parseLocation_tprint` and `buildLoc_rep`; the bridge from C03's
+decidable domain to C02's `Rep p l ∧ InRange ∧ Arity` is `Lemmas/GbLocStruct.lean` (`locOf`, `rep_locOf`). -/
+theorem location_structure_read_back (p : Location.PLoc) (h : locProved p = true) :
+    ∃ q, Location.parseLocation (Location.buildLoc p) = .ok q ∧ locBeq (normLoc q) (normLoc p) = true :=
+  PolyVerif.Lemmas.GbLocStruct.parse_buildLoc_struct p h
+
+/-- non-vacuity: a complemented join of a 5′-partial span and a complemented 3′-partial span, a double
+complement, and a lone span with a negative start -/
+example :
+    locProved { complement := true, subs := [{ start := 0, stop := 10, five := true }, { start := 20, stop := 30, complement := true, three := true }] } = true
+    ∧ locProved { complement := true, subs := [{ start := 2, stop := 9, complement := true }] } = true
+    ∧ locProved { start := -5, stop := 3 } = true := by decide
+
+/-- outside it (tested only): a span with a negative start below a join, `join(x)` with one operand -/
+example :
+    locProved { subs := [{ start := -5, stop := 3 }, { start := 4, stop := 9 }] } = false
+    ∧ wfLoc { subs := [{ start := -5, stop := 3 }, { start := 4, stop := 9 }] } = true
+    ∧ locProved { join := true, subs := [{ start := 1, stop := 3 }] } = false := by decide
 
 /-- a sparse record: no length, molecule type, topology, division or date; a reference without range -/
 def sparseRecord : Sequence :=
